@@ -608,8 +608,11 @@ def r12_6(ctx):
             buf_id = ident(t["args"][0])
             if not buf_id or not any(ident(rt["args"][2]) == buf_id for rbb, rt in rus):
                 why = "the buffer inspected is not the one read_until filled"
-            elif not any(l.kind == "call" and any(l.bb == rbb for rbb, rt in rus) for l in C.trace(b, t["args"][1], through_decorators=True)):
-                why = "the length inspected is not the result of read_until"
+            elif not all((l.kind == "call" and any(l.bb == rbb for rbb, rt in rus)) or
+                         (l.kind == "call" and C.callee_name(l.data).endswith("::len") and ident(l.data["args"][0]) == buf_id)
+                         for l in (C.trace(b, t["args"][1], through_decorators=True) or [C.Leaf("other")])):
+                # (the buffer starts empty, so its length after the call IS what read_until returned)
+                why = "the length inspected is neither the result of read_until nor the length of the buffer it filled"
             elif not all(k == "call" and nm in EMPTY_VEC for (k, _bb, nm) in buf_id):
                 why = "the buffer does not start empty"
         partial = [C.callee_name(pt) for pbb, pt in b.calls() if PARTIAL_READS.match(C.callee_name(pt) or "")]
